@@ -216,7 +216,11 @@ class Modes:
             raise P.Unsupported("optimized rule table too large to generate code from")
         self.src1 = self.p1.generate()
         self.g1 = P.load_generated(self.src1)
-        self.parse = {"interp": self.p0.parse, "opt": self.p1.parse, "gen": self.g0.parse, "optgen": self.g1.parse}
+        # a generated module offers parse() and the wrapper class Parser: one of the two per grammar and mode
+        odd = zlib.crc32(gtext.encode("utf-8", "surrogatepass")) & 1
+        gen0 = self.g0.Parser().parse if odd else self.g0.parse
+        gen1 = self.g1.parse if odd else self.g1.Parser().parse
+        self.parse = {"interp": self.p0.parse, "opt": self.p1.parse, "gen": gen0, "optgen": gen1}
 
     def grammar_rule_names(self):
         return [n for n, r in self.p0.rules.items() if not isinstance(r, BuiltInRule)]
